@@ -29,7 +29,7 @@ VARIANTS = {
     "cli":    dict(cflags=["-O1", "-g", "-DNDEBUG", "-D" + GUARD] + SAN, ldflags=SAN, cli=True),
 }
 # vendored zip library: deliberately unaligned loads / memcpy(NULL,0) -- configuration of miniz, not MMD code
-MINIZ_EXTRA = ["-fno-sanitize=alignment,nonnull-attribute"]
+MINIZ_EXTRA = ["-fno-sanitize=alignment,nonnull-attribute,pointer-overflow"]
 LIB_EXCLUDE = {"main.c", "argtable3.c", "char_lookup.c"}
 CLI_EXCLUDE = {"char_lookup.c"}
 
